@@ -274,6 +274,18 @@ class C07(object):
         pa, pb = float(perplexity(dl)), float(perplexity(d0))
         if not (abs(pa - pb) <= 1e-9 * pb):
             r.oracle_fail = 'perplexity: %r (base %s) vs %r (linear)' % (pa, base, pb)
+            return
+        # the same measures on scalar distributions
+        s0 = dit.ScalarDistribution(list(range(len(d0.pmf))), [float(v) for v in d0.pmf], trim=False)
+        sl = s0.copy(base=base)
+        for name, f in (('entropy(scalar)', entropy), ('extropy(scalar)', extropy)):
+            a, b = float(f(sl)), float(f(s0))
+            if not (abs(a * k - b) <= 1e-9):
+                r.oracle_fail = '%s: %r in base %s (x log2(base) = %r) but %r bits on the linear copy' % (name, a, base, a * k, b)
+                return
+        pa, pb = float(perplexity(sl)), float(perplexity(s0))
+        if not (abs(pa - pb) <= 1e-9 * pb):
+            r.oracle_fail = 'perplexity(scalar): %r (base %s) vs %r (linear)' % (pa, base, pb)
 
 
 def rngless(case):
